@@ -356,14 +356,23 @@ def seq_functions(target, ks, tag=""):
     return ops + ops
 
 
+FULL_GROUPS = True      # set by gen_cases: the quick tier uses the short group for tuples of two or more names
+
+
 def seq_mixed(target, ks, rev=False):
     ops = []
+    short = (not FULL_GROUPS) and len(ks) > 1
     for k in ks:
-        grp = [("I", k), ("I", "<state>" + k), ("F", "<func>" + k), ("I", "<p>" + k)]
-        if target == "f":
-            grp += [("U", k), ("R", k, True), ("R", "<state>" + k, False)]
+        if short:
+            grp = [("I", k), ("I", "<state>" + k), ("F", "<func>" + k)]
+            if target == "f":
+                grp += [("U", k), ("F", k)]
         else:
-            grp += [("L", k), ("G", "<state>" + k)]
+            grp = [("I", k), ("I", "<state>" + k), ("F", "<func>" + k), ("I", "<p>" + k)]
+            if target == "f":
+                grp += [("U", k), ("R", k, True), ("R", "<state>" + k, False)]
+            else:
+                grp += [("L", k), ("G", "<state>" + k)]
         if rev:
             grp.reverse()
         ops += grp
@@ -454,6 +463,8 @@ def _case_from_json(c):
 
 
 def gen_cases(tier, seed):
+    global FULL_GROUPS
+    FULL_GROUPS = tier != "quick"
     cases = list(corpus())
     n_corpus = len(cases)
     n1 = short_names(3)
